@@ -39,6 +39,7 @@ def register(reg):
                  ('ngood < self._good_npixels_threshold', 'ngood > self._good_npixels_threshold')],
     ))
     register_masks(reg)
+    register_filter_grid(reg)
 
 
 def register_masks(reg):
@@ -125,4 +126,61 @@ def register_filter(reg):
                  ('xidx0 = max(j - hxfs, 0)', 'xidx0 = max(j - hxfs, 1)'),
                  ('xidx1 = min(j - hxfs + xfs, data.shape[1])', 'xidx1 = min(j - hxfs + xfs, data.shape[0])'),
                  ('yidx0 = max(i - hyfs, 0)', 'yidx0 = max(i + hyfs, 0)')],
+    ))
+
+
+def register_filter_grid(reg):
+    """_filter_grid "meshes at or below the filter threshold keep the estimator value of their own
+    box": which filter the low-resolution mesh goes through -- none for filter_size (1, 1); the
+    median filter of the whole mesh when there is no threshold or the threshold lies below every
+    mesh value; the selective filter otherwise (a threshold of exactly 0 is a threshold).
+    medfilt_ / selfilt_ name what scipy's generic_filter / _selective_filter return for the mesh."""
+    box = '(0, data.shape[0]), (0, data.shape[1])'
+    whole = f'forall(lambda j, i: result[j, i] == medfilt_(id_(data), j, i), {box})'
+    sel = f'forall(lambda j, i: result[j, i] == selfilt_(id_(data), j, i), {box})'
+    reg.add(Contract(
+        target='scipy/ndimage/_filters.py::generic_filter', props=['C11'],
+        params={'input': ('arr', 2, 'real', 'nonfinite'), 'function': None, 'size': None,
+                'mode': 'str', 'cval': None},
+        ensures=[('names-the-filtered-mesh', 'result.shape == input.shape and forall(lambda j, i: '
+                  'result[j, i] == medfilt_(id_(input), j, i), (0, input.shape[0]), (0, input.shape[1]))')],
+        returns=('arr', 2, 'real', 'nonfinite'), assumed=True,
+        note='medfilt_ names scipy.ndimage.generic_filter(mesh, nanmedian, size=filter_size, '
+             "mode='constant', cval=nan) (external; what it computes: bounded driver)",
+    ))
+    if 'Background2D' not in reg.records:
+        reg.record('Background2D', {})
+    for tag, fsize, thr in (('no-filter', (1, 1), ('opt', 'real')), ('no-threshold', (3, 3), ('const', None)),
+                            ('threshold', (3, 5), 'real')):
+        rec = 'Background2D@filter-' + tag
+        reg.record(rec, {'filter_size': ('const', fsize), 'filter_threshold': thr,
+                         '_min_bkg_stats': 'real'}, bases=('Background2D',))
+        if tag == 'no-filter':
+            ens = [('mesh-returned-as-it-is', f'result.shape == data.shape and forall(lambda j, i: '
+                                              f'result[j, i] == data[j, i], {box})')]
+        elif tag == 'no-threshold':
+            ens = [('whole-mesh-median-filtered', whole)]
+        else:
+            ens = [('whole-mesh-filter-only-below-every-mesh-value',
+                    f'implies(self.filter_threshold < self._min_bkg_stats, {whole})'),
+                   ('selective-filter-for-every-other-threshold-zero-included',
+                    f'implies(self.filter_threshold >= self._min_bkg_stats, {sel})')]
+        reg.add(Contract(
+            target=f'{F}._filter_grid', props=['C11'], kind='method', tag=tag,
+            params={'self': rec, 'data': ('arr', 2, 'real', 'nonfinite', 'nonempty')},
+            ensures=ens,
+            mutants=[('self.filter_threshold < self._min_bkg_stats', 'self.filter_threshold <= self._min_bkg_stats'),
+                     ('self.filter_threshold is None', 'not self.filter_threshold')] if tag == 'threshold' else
+                    ([('== (1, 1)', '== (3, 3)')] if tag == 'no-threshold' else
+                     [('return data', 'return data + 0 * self._min_bkg_stats + 1')]),
+        ))
+    reg.add(Contract(
+        target=f'{F}._selective_filter', props=['C11'], kind='method', tag='call',
+        params={'self': 'Background2D', 'data': ('arr', 2, 'real', 'nonfinite')},
+        ensures=[('names-the-selectively-filtered-mesh', 'result.shape == data.shape and forall('
+                  'lambda j, i: result[j, i] == selfilt_(id_(data), j, i), (0, data.shape[0]), '
+                  '(0, data.shape[1]))')],
+        returns=('arr', 2, 'real', 'nonfinite'), assumed=True,
+        note='selfilt_ names what _selective_filter returns for the mesh (its window is the '
+             'business of the @window block contract)',
     ))
